@@ -14,7 +14,7 @@ CONSTANT MaxCN = 3
 CONSTANT Evidence <- MCEvidence
 CONSTANT CountsV = {0, 10, 20}
 CONSTANT CountsR = {0, 10, 20}
-CONSTANT DepthSel = {1, 2, 3, 4, 5}
+CONSTANT DepthSel = {1, 2, 3, 4}
 SPECIFICATION Spec
 INVARIANT BuildFree
 INVARIANT AnchorAgrees
